@@ -30,6 +30,7 @@ typedef struct {
   vorbis_info vi; vorbis_comment vc; vorbis_dsp_state vd; vorbis_block vb;
   int s_vi,s_vc,s_vd,s_vb;     /* 0 never, 1 live, 2 cleared */
   link_t *L; int nh; int inited; int lastk; int lastclean; int hs;
+  uint64_t lasthash; int lastn;      /* last chunk handed out by saud (synthetic streams) */
 } dec_t;
 static dec_t D[ND];
 
@@ -116,9 +117,9 @@ static void cmd(char **tok,int nt){
     if(ret==0&&x->nh==1) x->nh++;
     ev_begin("HeaderIn"); ev_i("d",di); ev_i("which",1); ev_i("mut",0); ev_i("ret",ret); ev_i("vch",x->vi.channels); ev_i("vrate",x->vi.rate); ev_i("vcs",x->vi.codec_setup!=NULL); ev_i("ncm",x->vc.comments); ev_i("ven",x->vc.vendor!=NULL); ev_i("syn",1); ev_dst(x); ev_end(); }
   else if((!strcmp(c,"saud")&&nt>=6)||(!strcmp(c,"srand")&&nt>=6)){
-    int rnd=c[1]=='r'; int k=atoi(tok[2]); long nb; unsigned char *b; int W; long long gp; int eos=0;
+    int rnd=c[1]=='r'; int k=atoi(tok[2]); long nb; unsigned char *b; int W; long long gp; int eos=0; int nosil=0;
     if(rnd){ rng_t r; r.s=(uint64_t)atol(tok[3])*7919+1; nb=atol(tok[4]); if(nb<1)nb=1; b=malloc(nb+16); for(long i=0;i<nb;i++) b[i]=(unsigned char)rng_u32(&r); b[0]&=0xFE; memset(b+nb,0,16); W=0; gp=atoll(tok[5]); }
-    else { W=atoi(tok[3]); gp=atoll(tok[4]); eos=atoi(tok[5]); b=pack_fields(tok,6,nt,&nb); }
+    else { W=atoi(tok[3]); gp=atoll(tok[4]); eos=atoi(tok[5]); nosil=(nt>6&&!strcmp(tok[6],"ns")); b=pack_fields(tok,6,nt,&nb); }
     ogg_packet op; memset(&op,0,sizeof op); op.packet=b; op.bytes=nb; op.packetno=3+k; op.granulepos=gp; op.e_o_s=eos;
     int rs=vorbis_synthesis(&x->vb,&op); long used=oggpack_bits(&x->vb.opb); int rW=x->vb.W; int rb=-9999; if(rs==0) rb=vorbis_synthesis_blockin(&x->vd,&x->vb); free(b);
     ev_begin("Synthesis"); ev_i("d",di); ev_i("k",k); ev_i("mut",rnd); ev_i("W",rs==0?rW:W); ev_i("cW",rnd?(rs==0?rW:W):W); ev_i("no",op.packetno); ev_i("gp",op.granulepos); ev_i("eos",op.e_o_s); ev_i("bytes",nb);
@@ -126,9 +127,12 @@ static void cmd(char **tok,int nt){
     if(rs==0&&rb==0){ x->lastk=k; }
     /* hand the samples out: a silent spectrum must give exact silence */
     float **pcm=NULL; int n=vorbis_synthesis_pcmout(&x->vd,&pcm); int zero=1; if(n>0) for(int ch=0;ch<x->vi.channels&&zero;ch++) for(int i=0;i<n;i++) if(pcm[ch][i]!=0.0f){ zero=0; break; }
-    ev_begin("PcmOut"); ev_i("d",di); ev_i("n",n); ev_i("k",x->lastk); ev_i("cn",rnd?-1:n); ev_i("cmp",rnd?0:(zero?0:3)); ev_i("hs",x->hs); ev_i("syn",1); ev_dst(x); ev_end();
+    { uint64_t h=1469598103934665603ULL; if(n>0) for(int ch=0;ch<x->vi.channels;ch++){ const unsigned char *q=(const unsigned char*)pcm[ch]; for(size_t i=0;i<n*sizeof(float);i++){ h^=q[i]; h*=1099511628211ULL; } } x->lasthash=h; x->lastn=n; }
+    ev_begin("PcmOut"); ev_i("d",di); ev_i("n",n); ev_i("k",x->lastk); ev_i("cn",rnd?-1:n); ev_i("cmp",(rnd||nosil)?0:(zero?0:3)); ev_i("hs",x->hs); ev_i("syn",1); ev_dst(x); ev_end();
     if(n>0){ int rr=vorbis_synthesis_read(&x->vd,n); ev_begin("ReadP"); ev_i("d",di); ev_i("n",n); ev_i("ret",rr); ev_dst(x); ev_end(); }
   }
+  else if(!strcmp(c,"stwin")&&nt>=3){ int d2=atoi(tok[2]); if(d2<0||d2>=ND) return; dec_t *y=&D[d2];
+    ev_begin("Twin"); ev_i("d",di); ev_i("d2",d2); ev_i("n1",x->lastn); ev_i("n2",y->lastn); ev_i("eq",x->lastn==y->lastn&&x->lasthash==y->lasthash); ev_end(); }
   else if(!strcmp(c,"pclr")&&nt>=3){
     for(const char *o=tok[2];*o;o++){
       if(*o=='b'){ int r=vorbis_block_clear(&x->vb); x->s_vb=2; x->inited=0; ev_begin("BlockClear"); ev_i("d",di); ev_i("ret",r); ev_end(); }
